@@ -22,7 +22,21 @@ structure Answer where
   rayPrimalOpt : Bool := false
   rayDualOpt : Bool := false
   iisOpt : Bool := false
+  /-- round 4: the remaining atoms the reporting code branches on -/
+  roundOpt : Bool := false      -- option mip:round ≠ 0
+  isMIP : Bool := false         -- the model has integer variables
+  extraMsg : Bool := false      -- the backend added lines through AddToSolverMessage
+  countSol : Bool := false      -- option sol:count (multiple solutions wanted without a stub)
+  altObj : Bool := true         -- the intermediate solutions carried objective values
+  altChkFailed : Bool := false  -- some intermediate solution failed the solution check
+  hasWarnings : Bool := false   -- GetWarnings() is non-empty
+  timesOpt : Bool := false
+  timingOpt : Bool := false
 deriving Repr
+
+/-- number of `ReportIntermediateSolution` calls (`kIntermSol_`): the backend reports its pool only when
+    `need_multiple_solutions()` = a solution stub or sol:count is given -/
+def Answer.nAltReported (a : Answer) : Nat := if a.solStub || a.countSol then a.nAlt else 0
 
 end MpVerif.C10
 
